@@ -345,6 +345,39 @@ def run(ctx):
     if outs != ["err 7", "ok 1,2,3", "err 4"]:
         ctx.violation("correspondence-break", "gather model sanity", {"model": outs})
 
+    # ---------------- failing calls UNDER LOAD (separate process, its own watchdog): every solver task of the call raises
+    # (or the first raises and the others deliver large results) while busy processes compete for the CPUs, many times
+    # over; a clean-up that kills workers while results are still being delivered can dead-lock the pool (the
+    # call never returns), and one that abandons the pool leaves workers behind
+    if ctx.replay is None or ctx.replay.get("pool_stress"):
+        import subprocess as _sp
+        import sys as _sys
+        plans = [("1", 200), ("mp4", 200), ("big1", 40), ("bigmp4", 40)] if ctx.quick() else \
+                [("1", 1500), ("mp4", 1500), ("big1", 300), ("bigmp4", 300)]
+        if ctx.replay is not None:
+            plans = [tuple(ctx.replay["pool_stress"])]
+        for mode, calls in plans:
+            env = dict(os.environ, REPO=common.REPO)
+            try:
+                pr = _sp.run([_sys.executable, os.path.join(common.HERE, "pool_stress.py"), str(calls), "24", "60", mode],
+                             capture_output=True, text=True, env=env, timeout=1500)
+                line = (pr.stdout.strip().splitlines() or ["?"])[-1]
+            except _sp.TimeoutExpired:
+                line = "HANG ?"
+            ctx.count(f"stress:{mode}:{line.split(' ')[0]}")
+            what = None
+            if line.startswith("HANG"):
+                what = f"a failing call did not return within 60 s under CPU load (mode {mode}, after {line.split(' ')[1]} failing calls)"
+            elif line.startswith("LEFTOVER"):
+                what = f"worker processes alive when the exception reached the caller (mode {mode}: {line})"
+            elif line.startswith("RETURNED"):
+                what = f"a call whose solver tasks fail returned a result (mode {mode}: {line})"
+            elif not line.startswith("ok"):
+                ctx.notes.append(f"pool stress ({mode}) did not run: {line[:200]} {pr.stderr[-300:] if 'pr' in dir() else ''}")
+            if what:
+                ctx.violation("impl-violation", what, {"pool_stress": [mode, calls]}, {"site": "hang" if line.startswith("HANG") else "stress"})
+            ctx.case(("stress", mode, calls), nontrivial=True)
+
     # ---------------- documented argument errors of the helpers: each surfaces as the exception the code names, none
     # returns a value (these are the error branches the runs above never enter)
     if ctx.replay is None:
